@@ -169,8 +169,10 @@ fn scenario(n: usize, fixed_kind: Option<u8>) {
 }
 
 //@ ob: C08.O1a
+//@ rss: 0.3
+//@ time: 14
 //@ tier: quick
-//@ cap: 1200
+//@ cap: 800
 //@ standins: tracing
 //@ also: C05 C17
 //@ desc: one replica: for every put kind (announce_peer, announce_signed_peer, put_immutable, put_mutable) and every event for its request (ack, error with any i32 code, lost): check() before expiry and after expiry returns Ok(true) only with an ack, CasFailed/NotMostRecent only for put_mutable and only if a 301/302 was delivered, a query error otherwise, and never 'not done' after expiry
@@ -186,8 +188,10 @@ fn c08_o1a_put_result_n1() {
 }
 
 //@ ob: C08.O1b
+//@ rss: 2.7
+//@ time: 72
 //@ tier: quick
-//@ cap: 1800
+//@ cap: 800
 //@ standins: tracing
 //@ also: C05 C17
 //@ desc: two replicas, announce_peer: same claims as C08.O1a over all event pairs (acks, errors with any i32 codes incl. 301/302, losses): never a concurrency error, Ok iff an ack arrived
@@ -203,8 +207,10 @@ fn c08_o1b_put_result_n2_announce() {
 }
 
 //@ ob: C08.O1m
+//@ rss: 6.8
+//@ time: 130
 //@ tier: quick
-//@ cap: 1800
+//@ cap: 800
 //@ standins: tracing
 //@ also: C05 C17
 //@ desc: two replicas, put_mutable: same claims, including the early-failure majority rule (threshold 2 of 2: both replies 301, or both 302, fail the put before expiry; one does not)
@@ -311,7 +317,7 @@ fn start_scenario(n: usize) {
 }
 
 //@ ob: C08.O3
-//@ tier: quick
+//@ tier: thorough
 //@ cap: 1800
 //@ standins: tracing
 //@ also: C06
@@ -330,8 +336,10 @@ fn c08_o3_start_one_request_per_token() {
 }
 
 //@ ob: C08.O3b
+//@ rss: 0.3
+//@ time: 7
 //@ tier: quick
-//@ cap: 1200
+//@ cap: 800
 //@ standins: tracing
 //@ desc: start() with an empty closest list fails with NoClosestNodes and sends nothing, even when extra nodes with tokens are given
 //@ bounds: 0 closest nodes, optional extra node with symbolic token presence; unwind 6
@@ -361,8 +369,10 @@ fn c08_o3b_start_without_closest() {
 }
 
 //@ ob: C05.O4a
+//@ rss: 0.2
+//@ time: 6
 //@ tier: quick
-//@ cap: 900
+//@ cap: 800
 //@ standins: tracing
 //@ also: C08
 //@ desc: the acknowledgement counter does not wrap: 256 acknowledgements (255 closest + extra nodes) are counted without overflow and the put reports Ok
@@ -430,8 +440,10 @@ fn c05_o4c_error_counter_256() {
 }
 
 //@ ob: C05.O4b
+//@ rss: 0.5
+//@ time: 15
 //@ tier: quick
-//@ cap: 900
+//@ cap: 800
 //@ standins: tracing
 //@ also: C08
 //@ desc: the majority threshold does not wrap at 256: with 510 targets (255 closest + 255 extra), a single 301 reply does not fail a put_mutable early (threshold is 256, not 256 as u8 = 0)
@@ -512,7 +524,7 @@ fn tally_step(pre: usize) {
 
 //@ ob: C08.O1e
 //@ tier: quick
-//@ cap: 900
+//@ cap: 800
 //@ standins: tracing
 //@ also: C05 C17
 //@ desc: error tally step (inductive): from any tally of 2 distinct error codes ordered by count, one more error reply with any i32 code leaves one entry per code, counts exactly that reply, keeps the other counts, keeps the order highest-count-first (most_common_error reads the head) and never panics -- including a later-seen code overtaking the head
